@@ -800,6 +800,37 @@ func (e *Env) callExpr(x *ECall) tv {
 			ts = SString
 		}
 		return tv{u.strOfBytes(e.st, b, ts), types.Typ[types.String]}
+	case "fncalls":
+		// fncalls(f, "name"): the function value f is (a closure of) a function of this
+		// package whose body calls a function or method named name directly
+		if len(x.Args) != 2 {
+			e.fail("fncalls(f, \"name\")")
+		}
+		nm, ok := x.Args[1].(*EStr)
+		if !ok {
+			// a spec-function parameter bound to a literal
+			if t, isT := e.eval(x.Args[1]).v.(*Term); isT {
+				if lit, found := u.ctx.StrLitTable()[t.S]; found {
+					nm, ok = &EStr{Val: lit}, true
+				}
+			}
+		}
+		if !ok {
+			e.fail("fncalls(f, \"name\"): the name must be a string literal")
+		}
+		f := u.evalTerm(e, x.Args[0])
+		if f.Sort != SFn {
+			e.fail("fncalls(): function value expected, got %s", f.Sort)
+		}
+		fs := u.ctx.Func("fnstatic", []Sort{SFn}, SInt)
+		var alts []*Term
+		for _, cand := range u.prog.callersOf(u.fn, nm.Val) {
+			alts = append(alts, Eq(App(SInt, fs, f), IntLit(int64(u.prog.fnID(cand)))))
+		}
+		if len(alts) == 0 {
+			return tv{False, types.Typ[types.Bool]}
+		}
+		return tv{Or(alts...), types.Typ[types.Bool]}
 	case "arrayof", "offsetof":
 		// arrayof(s): the contents of the backing array of a slice of scalars, as a
 		// ghost array indexed by position; offsetof(s): position of s[0] in it.
